@@ -49,7 +49,8 @@ def functions_encoded():
 
 
 def instances(tier):
-    out = [{"name": "worker_dataflow", "func": "run_dataflow", "kwargs": {}},
+    out = [{"name": "cli_output_association", "func": "run_cli_association", "kwargs": {}},
+           {"name": "worker_dataflow", "func": "run_dataflow", "kwargs": {}},
            {"name": "crosshair_chunk_fft_length", "func": "run_xh", "kwargs": {}, "timeout": 300}]
     for method in ("geometric_mean", "single_azimuth", "azimuthal", "diffuse_field"):
         for order in ("long_then_short", "short_then_long"):
@@ -113,6 +114,98 @@ def worker_passes(Ld):
                 del CLI.print
         return seen.get("pre"), seen.get("pro")
     return run
+
+
+class FakePool:
+    """multiprocessing.Pool run in-process: tasks executed one after the other in the order given (any assignment of tasks to
+    workers gives the same files, since workers share nothing but what the parent passes / collects)."""
+
+    def __init__(self, *a, **k):
+        pass
+
+    def __enter__(self):
+        return self
+
+    def __exit__(self, *a):
+        return False
+
+    def starmap(self, fn, it, chunksize=None):
+        return [fn(*args) for args in list(it)]
+
+    def map(self, fn, it, chunksize=None):
+        return [fn(a) for a in list(it)]
+
+    imap = map
+
+    def close(self):
+        pass
+
+    def join(self):
+        pass
+
+
+FILES = ["b_site.mseed", "a_site.mseed", "c_site.mseed"]
+
+
+def raw_cli(Ld):
+    """the function behind the click command (click is a recorder here: the decorated function is in its call log)"""
+    for name, args, kw, r in Ld.logs["click"]:
+        if args and callable(args[0]) and getattr(args[0], "__name__", "") == "cli":
+            return args[0]
+    raise RuntimeError("cli function not found in the click log")
+
+
+def run_cli_association(rep, tier):
+    """the whole command: every file named on the command line - in any order, with any number of processes - gets exactly one
+    output, named after it, holding the result of read -> preprocess -> process of THAT file"""
+    import itertools
+    Ld = L()
+    CLI = Ld["cli"]
+    pkg = CLI.hvsrpy
+    S = Ld["settings"]
+    perms = list(itertools.permutations(range(3)))
+
+    def run(ctx):
+        order = perms[ctx.choose(len(perms), tag="order")]
+        nproc = 1 + ctx.choose(3, tag="nproc")
+        names = [FILES[i] for i in order]
+        written = []
+        saved = {k: getattr(pkg, k, None) for k in ("read", "preprocess", "process", "write_hvsr_object_to_file", "plot_single_panel_hvsr_curves", "HVSRPY_MPL_STYLE")}
+        saved_cli = {k: CLI.__dict__.get(k) for k in ("Pool", "read_settings_object_from_file", "print")}
+        pkg.read = lambda fnames, **k: "rec:" + str(fnames[0][0])
+        pkg.preprocess = lambda recs, st: "pre:" + recs
+        pkg.process = lambda recs, st: "hv:" + recs
+        pkg.write_hvsr_object_to_file = lambda hv, out, **k: written.append((str(out), hv))
+        pkg.plot_single_panel_hvsr_curves = lambda *a, **k: None
+        pkg.HVSRPY_MPL_STYLE = {}
+        CLI.Pool = FakePool
+        CLI.read_settings_object_from_file = lambda f: S.HvsrPreProcessingSettings() if "pre" in str(f) else S.HvsrTraditionalProcessingSettings()
+        CLI.print = lambda *a, **k: None
+        try:
+            raw_cli(Ld)(None, file_names=tuple(names), preprocessing_settings_file="pre.json", processing_settings_file="pro.json", distribution_fn="lognormal",
+                        distribution_mc="lognormal", no_figure=True, no_file=False, ymax=10.0, nproc=nproc)
+        finally:
+            for k, v in saved.items():
+                if v is None:
+                    if hasattr(pkg, k):
+                        delattr(pkg, k)
+                else:
+                    setattr(pkg, k, v)
+            for k, v in saved_cli.items():
+                if v is None:
+                    CLI.__dict__.pop(k, None)
+                else:
+                    setattr(CLI, k, v)
+        return names, nproc, written
+
+    for ctx, (names, nproc, written) in rep.explore(run, max_paths=40):
+        rep.obligations += 1
+        want = sorted((n.rsplit(".", 1)[0] + ".csv", "hv:pre:rec:" + n) for n in names)
+        if sorted(written) == want:
+            rep.discharged += 1
+        else:
+            rep.candidate({"kind": "cli-association", "files": names, "nproc": nproc}, f"files {names} with nproc={nproc}: outputs {sorted(written)} instead of {want}", key="output-under-wrong-name")
+        rep.sample({"order": names, "nproc": nproc})
 
 
 def run_dataflow(rep, tier):
@@ -222,6 +315,29 @@ def replay(spec):
     import tempfile, os, shutil
     hvsrpy = real_hvsrpy()
     from hvsrpy import cli as CLI
+    if spec["kind"] == "cli-association":
+        written = []
+        saved = {k: getattr(hvsrpy, k) for k in ("read", "preprocess", "process", "write_hvsr_object_to_file")}
+        saved_cli = {k: getattr(CLI, k) for k in ("Pool", "read_settings_object_from_file")}
+        hvsrpy.read = lambda fnames, **k: "rec:" + str(fnames[0][0])
+        hvsrpy.preprocess = lambda recs, st: "pre:" + recs
+        hvsrpy.process = lambda recs, st: "hv:" + recs
+        hvsrpy.write_hvsr_object_to_file = lambda hv, out, **k: written.append((str(out), hv))
+        CLI.Pool = FakePool
+        CLI.read_settings_object_from_file = lambda f: hvsrpy.HvsrPreProcessingSettings() if "pre" in str(f) else hvsrpy.HvsrTraditionalProcessingSettings()
+        import io, contextlib
+        try:
+            with contextlib.redirect_stdout(io.StringIO()):
+                CLI.cli.main(args=list(spec["files"]) + ["--preprocessing_settings_file", "pre.json", "--processing_settings_file", "pro.json", "--no_figure", "--nproc", str(spec["nproc"])],
+                             standalone_mode=False)
+        finally:
+            for k, v in saved.items():
+                setattr(hvsrpy, k, v)
+            for k, v in saved_cli.items():
+                setattr(CLI, k, v)
+        want = sorted((n.rsplit(".", 1)[0] + ".csv", "hv:pre:rec:" + n) for n in spec["files"])
+        return {"reproduced": sorted(written) != want, "key": "output-under-wrong-name",
+                "detail": f"hvsrpy {' '.join(spec['files'])} --nproc {spec['nproc']}: outputs {sorted(written)}, expected {want}"[:500]}
     d = tempfile.mkdtemp(prefix="c19_")
     cwd = os.getcwd()
     try:
